@@ -26,7 +26,7 @@ if ! git -C /repo diff --quiet; then echo "/repo has uncommitted changes; refusi
 git -C /repo apply $out/patch.diff || { echo "patch does not apply to /repo" | tee -a $res; exit 2; }
 : > $out/checks.txt
 for p in "$@"; do
-  bin/govc check -p $p > /tmp/seedchk.$$ 2>&1; rc=$?
+  ./check.sh $p quick > /tmp/seedchk.$$ 2>&1; rc=$?
   echo "== property $p exit=$rc" >> $out/checks.txt
   grep -E "^VIOLATION|^govc:" /tmp/seedchk.$$ | cut -c1-260 >> $out/checks.txt
 done
